@@ -659,6 +659,13 @@ fn check(cfg: &Cfg, ctx: &mut Ctx) -> Result<(), Failure> {
         return Ok(());
     }
     if n_ok == 0 {
+        // "given a payload the chosen message type admits": a payload an ICMPv4 timestamp message does not
+        // admit may also be refused - by all writers alike (checked above), with a payload-length error
+        let ts_payload = matches!(&cfg.tp, Tp::Icmp4(Icmp4::TsRequest { .. }) | Tp::Icmp4(Icmp4::TsReply { .. })) && cfg.payload_len != 0;
+        if (ts_payload || matches!(not_admitted(cfg), Some(r) if r.starts_with("icmp4-"))) && outs.iter().all(|o| o.res.as_ref().unwrap_err().starts_with("PayloadLen(")) {
+            ck.ctx.class("outcome:err-payload-not-admitted-by-message-type");
+            return Ok(());
+        }
         ck.ctx.class("outcome:unexpected-err");
         let e = outs[0].res.as_ref().unwrap_err().clone();
         return ck.fail("write", "builder", "encodable-yields-ok", format!("every length fits its field (IP demand/limit {:?}) but write failed: {}", cfg.ip_len_demand_and_limit(), e));
@@ -842,7 +849,7 @@ impl Property for C10 {
             "Checksums are required to *verify* (one's complement sum over pseudo header + segment == 0xffff) and the UDP field must be non-zero; +0/-0 representation of TCP/ICMP checksums is not distinguished.".into(),
             "The pseudo header uses the addresses of the IP header on the wire (a routing header's final destination is not interpreted: routing headers are raw bytes in etherparse).".into(),
             "Extension header order is only required as far as needed to recover the supplied headers (hop-by-hop first, destination options before/after the routing header); pcp/dei of single_vlan()/double_vlan() and the unspecified fields of ipv4()/ipv6() are not asserted.".into(),
-            "Strict parse acceptance is not required where the user-chosen numbers re-interpret the payload: raw final IP number equal to an extension header or transport number, ICMPv4 timestamp messages (typed or raw type 13/14 code 0) with a payload of the wrong size. Those cases still must not panic.".into(),
+            "Strict parse acceptance is not required where the user-chosen numbers re-interpret the payload: raw final IP number equal to an extension header or transport number, ICMPv4 timestamp messages (typed or raw type 13/14 code 0) with a payload of the wrong size. Those cases still must not panic; an ICMPv4 timestamp payload of the wrong size may also be refused with a payload-length error by all three writers (preserving change C10l).".into(),
             "Error kind is checked by Debug prefix (PayloadLen / Icmpv6InIpv4); when both apply either is accepted. The contents of ValueTooBigError are not checked here (C14).".into(),
         ]
     }
